@@ -185,7 +185,14 @@ public:
          and is_nothrow_constructible_v<detail::variant_alternative_selector_t<T, Ts...>, T>)
     ) -> variant&
     {
-        emplace<detail::variant_alternative_selector_t<T, Ts...>>(etl::forward<T>(t));
+        using alternative_t  = detail::variant_alternative_selector_t<T, Ts...>;
+        constexpr auto index = meta::index_of_v<alternative_t, meta::list<Ts...>>;
+        if (this->index() == index) {
+            // already holds that alternative: assign to the contained value
+            _union[index_v<index>] = etl::forward<T>(t);
+        } else {
+            emplace<alternative_t>(etl::forward<T>(t));
+        }
         return *this;
     }
 
